@@ -270,6 +270,105 @@ fn main() {
         ing.as_ref().unwrap().0.deregister_pipe(p);
         println!("detach {}", p);
       }
+      "noise_heartbeat" => {
+        // two real engines complete a NOISE_XX handshake; the server (heartbeats on) ticks; what it emits is fed to the client
+        fn sends(out: &rzmq::protocol::zmtp::actions::EngineOutput) -> Vec<u8> {
+          let mut v = Vec::new();
+          for a in &out.net_actions {
+            if let NetAction::Send { data, .. } = a {
+              v.extend_from_slice(data);
+            }
+          }
+          v
+        }
+        fn apps(out: &rzmq::protocol::zmtp::actions::EngineOutput) -> String {
+          out.app_actions.iter().map(|a| match a {
+            AppAction::HandshakeComplete { .. } => "hs".to_string(),
+            AppAction::DeliverMessage(_) => "deliver".to_string(),
+            AppAction::PeerError(e) => format!("error({:?})", e),
+            #[allow(unreachable_patterns)]
+            _ => "other".to_string(),
+          }).collect::<Vec<_>>().join(",")
+        }
+        let ssk = [7u8; 32];
+        let csk = [9u8; 32];
+        let spk = x25519_dalek::PublicKey::from(&x25519_dalek::StaticSecret::from(ssk)).to_bytes();
+        let mut scfg = EngineCfg::default();
+        scfg.socket_type_name = "PULL".into();
+        scfg.security_enabled = true;
+        scfg.use_noise_xx = true;
+        scfg.noise_xx_local_sk = Some(ssk);
+        scfg.heartbeat_ivl = Some(Duration::from_millis(1));
+        scfg.heartbeat_timeout = Some(Duration::from_millis(500));
+        let mut ccfg = EngineCfg::default();
+        ccfg.socket_type_name = "PUSH".into();
+        ccfg.security_enabled = true;
+        ccfg.use_noise_xx = true;
+        ccfg.noise_xx_local_sk = Some(csk);
+        ccfg.noise_xx_remote_pk = Some(spk);
+        let mut s = new_engine(true, scfg);
+        let mut c = new_engine(false, ccfg);
+        let mut to_s = sends(&c.start());
+        let mut to_c = sends(&s.start());
+        for _ in 0..32 {
+          if !to_c.is_empty() {
+            let d = std::mem::take(&mut to_c);
+            let o = c.on_network_bytes(bytes::Bytes::from(d));
+            to_s.extend(sends(&o));
+          }
+          if !to_s.is_empty() {
+            let d = std::mem::take(&mut to_s);
+            let o = s.on_network_bytes(bytes::Bytes::from(d));
+            to_c.extend(sends(&o));
+          }
+          if to_c.is_empty() && to_s.is_empty() {
+            break;
+          }
+        }
+        println!("noise phases server={:?} client={:?}", s.phase, c.phase);
+        std::thread::sleep(Duration::from_millis(5));
+        let tick = s.on_tick(Instant::now());
+        let ping = sends(&tick);
+        println!("noise server tick emitted {} bytes: {}", ping.len(), hex(&ping));
+        let o = c.on_network_bytes(bytes::Bytes::from(ping));
+        let pong = sends(&o);
+        println!("noise client reaction: sends={} apps=[{}] phase={:?} buffered={}", pong.len(), apps(&o), c.phase, c.buffer_len());
+        let o2 = s.on_network_bytes(bytes::Bytes::from(pong));
+        println!("noise server after reply: apps=[{}] waiting_pong={}", apps(&o2), s.verif_waiting_for_pong());
+      }
+      "record_len" => {
+        // LengthPrefixedFramer with a tag-prepending cipher: one message of N payload bytes, then the peer reads it
+        struct TagCipher;
+        impl rzmq::verif_facade::VCipher for TagCipher {
+          fn encrypt(&mut self, p: &[u8]) -> Result<Vec<u8>, rzmq::ZmqError> {
+            let mut v = vec![0xEEu8; 16];
+            v.extend_from_slice(p);
+            Ok(v)
+          }
+          fn decrypt(&mut self, c: &[u8]) -> Result<Vec<u8>, rzmq::ZmqError> {
+            if c.len() < 16 {
+              return Err(rzmq::ZmqError::InvalidMessage("short".into()));
+            }
+            Ok(c[16..].to_vec())
+          }
+        }
+        let n: usize = it.next().unwrap().parse().unwrap();
+        let mut tx = rzmq::verif_facade::VLengthPrefixedFramer::new(TagCipher, -1, 4, 1024);
+        let mut rx = rzmq::verif_facade::VLengthPrefixedFramer::new(TagCipher, -1, 4, 1024);
+        let mut fb = rzmq::FrameBatch::new();
+        fb.push(rzmq::Msg::from_vec(vec![0x5A; n]));
+        match tx.write_msg_multipart(fb) {
+          Err(e) => println!("record refused {:?}", e),
+          Ok(wire) => {
+            let mut acc = bytes::BytesMut::from(&wire[..]);
+            match rx.try_read_msg(&mut acc) {
+              Ok(Some(m)) => println!("record decoded {} bytes residue {}", m.size(), acc.len()),
+              Ok(None) => println!("record NOT decoded residue {}", acc.len()),
+              Err(e) => println!("record decode error {:?}", e),
+            }
+          }
+        }
+      }
       "inproc" => {
         use rzmq::SocketType;
         fn st(s: &str) -> SocketType {
